@@ -17,13 +17,18 @@ rule = ("scripts = 'it begin', 'it create <hex of description>' or 'it profile <
         "sequences up to length 8; descriptions marked exact use only dyadic literals and are compared bit-exactly "
         "(xvalue), the others as decimals of at most 8 digits (tolerance 1e-12) or rounded to 6 digits; non-trivial = a script in which an iterator was accepted "
         "and yielded at least two elements ('more' seen or a walk of >= 2 values), or a malformed description was "
-        "refused, counted per distinct script")
+        "refused, counted per distinct script; further streams: text argument iterator (number, word and key reads "
+        "over padded texts with blank/comma/semicolon separators), buffer iterator, mpt_iterator_consume and the "
+        "iterator-argument forms of the linear/range/factor creators fed from text and buffer sources, grid-less "
+        "polynomial sources, extreme parameters (infinite literals, subnormal factors, counts around 2^32), histories "
+        "inside one process (a refused range or subnormal element before lists with infinite elements) and a grid "
+        "owner appending points inside and beyond the reserved space while a source over the grid is alive")
 assumptions = [
     "decimal literals are compared exactly (xvalue) only when every number involved is a dyadic fraction; otherwise "
-    "with the tolerant decimal rendering of the drivers (8-digit decimals within 1e-12, else 6 digits); rounding of arbitrary doubles, overflow, inf/nan, hexadecimal literals, digit runs "
+    "with the tolerant decimal rendering of the drivers (8-digit decimals within 1e-12, else 6 digits); rounding of arbitrary doubles, overflow, nan, hexadecimal literals, digit runs "
     "> 15 and exponents > 2 digits are outside the model (both drivers answer 'unmodelled')",
-    "'file' profiles (mpt_iterator_file) and the iterator-argument forms of _mpt_iterator_linear/_range/_factor "
-    "(mpt_iterator_consume over another iterator) are not modelled",
+    "'file' profiles (mpt_iterator_file) are not modelled; infinite literals are modelled as the value 2^2000 "
+    "(printed 'inf'), NaN not at all",
     "C locale (LC_ALL=C) for isspace/isalpha/strtod",
 ]
 trusted = ["hand-written model MptModel/Impl/Iter.lean tied to mptplot/values/iterator_*.c, values_linear.c, "
@@ -285,6 +290,7 @@ STRINGS = [
     ("1 x", None, None), ("1,,2", None, None), (" 7", None, None), ("1 2 ", None, None), ("4:5/6", None, 3),
     ("1,2", ",", 2), ("1 2", ",", None), ("3;4", "", None), (None, None, 0), ("x", None, None),
     ("-1.5e1 +2.25", None, 2), ("1\t2\n3", None, None), ("8", "", 1),
+    ("4   0 1", None, 3), ("1, 2, 3", None, 3), ("  7", None, 1), ("1 \t2", None, 2), ("5 ,6", None, None), ("1,  2;\t3", None, 3),
 ]
 
 
@@ -343,9 +349,9 @@ def _buffers(top):
 
 
 ARGSRC = [
-    ("lin", ["4 0 1", "2,-1;2", "8 1 3 9", "4", "4 0", "x 0 1", "4 x 1", "0 0 1", "4294967295 0 1", "1 2.5 2.5", " 4 0 1", "4  0 1", ""]),
+    ("lin", ["4   0 1", "4, 0, 1", " 4 0  1", "4 0 1", "2,-1;2", "8 1 3 9", "4", "4 0", "x 0 1", "4 x 1", "0 0 1", "4294967295 0 1", "1 2.5 2.5", " 4 0 1", "4  0 1", ""]),
     ("range", ["0 1 0.25", "0 1", "-2 2 0.5", "1 0 0.5", "1 1 1", "0 1 2", "0 1 0", "0 1 x", "0 3 1.25 7"]),
-    ("fac", ["3", "3 2", "3 2 0.5", "3 2 0.5 1", "0 2", "3 0", "3 -1", "3 2 0", "3 2 -1", "x", "3 x", "3 2 x", "3 2 0.5 x",
+    ("fac", ["3  2", "3, 2,  0.5", "3", "3 2", "3 2 0.5", "3 2 0.5 1", "0 2", "3 0", "3 -1", "3 2 0", "3 2 -1", "x", "3 x", "3 2 x", "3 2 0.5 x",
              "4294967295 2", "5 1.5 2 0.25 9"]),
 ]
 
@@ -405,6 +411,19 @@ def _extreme():
     return [("extreme", lines)]
 
 
+KEYS = [("abc,def", None), ("abc def gh", None), ("a b,c", ","), ("a, b;c/d:e", None), ("x", None), ("", None), ("a,,b", None),
+        (",a", None), ("a,", None), ("k1;k2;k3", ";"), ("one two", ""), (" lead", None), ("a:b c", ": "), ("ab", None)]
+
+
+def _keys():
+    out = []
+    for ki, (text, sep) in enumerate(KEYS):
+        create = "it string %s %s" % (H(text), "null" if sep is None else H(sep))
+        for pre in ([], ["it kwalk 1"], ["it kwalk 2", "it reset"], ["it xvalue"], ["it advance"], ["it clone", "it use 1"]):
+            out.append(("key:%d:%d" % (ki, len(pre)), ["it begin", create] + pre + ["it kwalk 9", "it reset", "it kwalk 9", "it kwalk 2"]))
+    return out
+
+
 def _words(top):
     out = []
     for si, (text, sep, n) in enumerate(STRINGS):
@@ -413,6 +432,45 @@ def _words(top):
             for seq in itertools.product("oar", repeat=k):
                 lines = [{"o": "it word", "a": "it advance", "r": "it xvalue"}[o] for o in seq]
                 out.append(("word:%d:%s" % (si, "".join(seq)), ["it begin", create] + lines + ["it word", "it advance", "it word", "it reset", "it word", "it walk 5"]))
+    return out
+
+
+def _history():
+    """state left behind by earlier calls in the same process (errno, shared buffers) must not change what a
+    source yields: refused range / subnormal element before value lists with infinite elements; the owner of a
+    grid array appends points (inside and beyond the reserved space) while a source over it is alive"""
+    out = []
+    refused = ["range(0 1 : 2)", "range(0 1 : 0.0000001)", "range(1 0)", "lin(0 : 0 1)", "x"]
+    lists = ["1 inf 3", "-inf 0 inf", "2 1e-320 5 -inf 7", "1e-310 Infinity", "inf", "1 +INF -Inf 2", "3 infinit 4", "1e-323 inf 1"]
+    k = 0
+    for pre in refused + [None]:
+        for lst in lists:
+            lines = ["it begin"]
+            if pre is not None:
+                lines.append("it create " + H(pre))
+            lines += ["it create " + H(lst), "it value", "it walk 9", "it reset", "it walk 9", "it clone", "it use %d" % (1 if pre is None or True else 1),
+                      "it walk 9"]
+            out.append(("hist:%d" % k, lines))
+            k += 1
+    for n, add in ((5, 3), (5, 4), (5, 1), (9, 15), (9, 16), (2, 1), (7, 1), (1, 1), (3, 0)):
+        for desc in ("poly 1 0 0 : -4", "poly 1 -8 16", "lin 0 1", "bound 1 2 3"):
+            create = "it profile %d %s" % (n, H(desc))
+            for variant in range(5):
+                lines = ["it begin", create]
+                if variant == 0:
+                    lines += ["it walk 40", "it grow 0 %d" % add, "it reset", "it walk 40"]
+                elif variant == 1:
+                    lines += ["it xvalue", "it advance", "it grow 0 %d" % add, "it walk 40", "it reset", "it walk 40"]
+                elif variant == 2:
+                    lines += ["it walk 40", "it xvalue", "it advance", "it grow 0 %d" % add, "it xvalue", "it advance", "it walk 3"]
+                elif variant == 3:
+                    lines += ["it grow 0 %d" % add, "it walk 40", "it grow 0 %d" % add, "it reset", "it walk 40"]
+                else:
+                    lines += ["it clone", "it grow 0 %d" % add, "it xvalue", "it walk 40", "it grow 1 1", "it grow 9 1"]
+                out.append(("grow:%d" % k, lines))
+                k += 1
+    out.append(("growd", ["it begin", "it poly 5 " + H("1 0 0 : -4"), "it walk 9", "it grow 0 3", "it reset", "it walk 9",
+                          "it poly none " + H("2 1"), "it grow 1 4", "it walk 3", "it create " + H("1 2"), "it grow 2 1"]))
     return out
 
 
@@ -436,7 +494,7 @@ def _consume():
 
 def scripts(tier, seed, scale=1):
     top = 3 if tier == "quick" else 4
-    return (_exhaustive(top) + _strings(top) + _buffers(top) + _fromiter(top) + _polydirect(top) + _extreme() + _words(top) + _consume() + _boundary()
+    return (_exhaustive(top) + _strings(top) + _buffers(top) + _fromiter(top) + _polydirect(top) + _extreme() + _words(top) + _keys() + _history() + _consume() + _boundary()
             + _random(tier, seed, scale))
 
 
